@@ -390,4 +390,4 @@ mod tests {
 
 #[cfg(kani)]
 #[path = "/verif/harness/may/sync_condvar.rs"]
-mod verif_kani;
+pub(crate) mod verif_kani;
